@@ -137,6 +137,9 @@ def build(quick=True):
     T["rawcall.basic"] = _fn("t: address, d: Bytes[36]", "Bytes[32]", "return raw_call(t, d, max_outsize=32)")
     T["rawcall.nofail"] = _fn("t: address, d: Bytes[36]", "bool", "ok: bool = False\nr: Bytes[32] = b''\nok, r = raw_call(t, d, max_outsize=32, revert_on_failure=False)\nreturn ok")
     T["rawcall.static"] = _fn("t: address, d: Bytes[4]", "Bytes[32]", "return raw_call(t, d, max_outsize=32, is_static_call=True)", deco="@external\n@view")
+    # save a state variable, make an outgoing call that may re-enter, write the saved value back (the restoring store must survive)
+    T["saverestore.rawcall.transient"] = "t: transient(uint256)\n\n" + _fn("target: address", "bool", "saved: uint256 = self.t\nok: bool = raw_call(target, method_id(\"cb()\"), revert_on_failure=False)\nself.t = saved\nreturn ok")
+    T["saverestore.rawcall.storage"] = "s: uint256\n\n" + _fn("target: address", "bool", "saved: uint256 = self.s\nok: bool = raw_call(target, method_id(\"cb()\"), revert_on_failure=False)\nself.s = saved\nreturn ok")
     T["send"] = _fn("t: address, v: uint256", "", "send(t, v)")
     T["rawrevert"] = _fn("d: Bytes[36]", "", "raw_revert(d)")
     T["create.minimal"] = _fn("t: address", "address", "return create_minimal_proxy_to(t)")
